@@ -99,25 +99,8 @@ func OracleC01(run *common.Run, id string, res *Result) int {
 	sort.Ints(bad)
 	if len(missing) > 0 {
 		sig := "closure-missing"
-		if c.Stream == "twin" && DigestKeyed(c.Dst) {
-			// F12: a pre-populated blob with the bytes of a reachable manifest makes Exists(manifest) true.
-			twinHit := false
-			for _, t := range c.D0 {
-				a := g.Nodes[t].TwinOf
-				if a >= 0 && reach[a] && !inSet(c.D0, a) {
-					twinHit = true
-				}
-			}
-			sim := keySim(g, c.D0, res.Root2)
-			same := true
-			for _, n := range g.Nodes {
-				if !n.Foreign() && sim[n.Desc.Digest.String()] != res.Present[n.ID] {
-					same = false
-				}
-			}
-			if twinHit && same {
-				sig = "twin-prepopulated-dst"
-			}
+		if f12Explains(res, missing) {
+			sig = "twin-digest-exists"
 		}
 		fail(sig, fmt.Sprintf("copy %s->%s mode=%s root=%d returned nil but reachable nodes %v are not in the destination (d0=%v graph=%v)",
 			c.Src, c.Dst, c.Mode, res.Root2, missing, c.D0, g.Describe()))
@@ -130,6 +113,9 @@ func OracleC01(run *common.Run, id string, res *Result) int {
 		got := res.Returned
 		if got.MediaType != want.MediaType || got.Digest != want.Digest || got.Size != want.Size {
 			fail("returned-root", fmt.Sprintf("Copy returned %s %s, expected node %d (%s %s)", got.MediaType, got.Digest, res.Root2, want.MediaType, want.Digest))
+		}
+		if res.ExtraTag && !(c.PreTag >= 0 && false) {
+			fail("extra-tag", fmt.Sprintf("the source reference %q also resolves in the destination although the destination reference is %q", c.SrcRef, c.DstRef))
 		}
 		if res.TagNode != res.Root2 {
 			sig := "tag-wrong"
@@ -146,6 +132,78 @@ func OracleC01(run *common.Run, id string, res *Result) int {
 		}
 	}
 	return fails
+}
+
+// digestKeyedFor: does the destination answer Exists(any descriptor with t's digest) = true once
+// node t is stored?  OCI layouts: always (blobs/<alg>/<hex>).  File store: when t was pushed with a
+// title (digestToPath).  Memory store and registries (manifests and blobs apart): no.
+func digestKeyedFor(c *Case, t int) bool {
+	switch c.Dst {
+	case "oci", "ocire":
+		return true
+	case "file":
+		return inSet(c.Titled, t)
+	}
+	return false
+}
+
+// f12Explains recognises the mechanism of the known finding twin-digest-exists, and nothing else:
+// dst.Exists(M) answered true for a manifest M that is not in the destination as such (neither
+// pre-populated nor pushed before the answer) because content with the same digest under another
+// media type is (pre-populated, or pushed earlier in this very call), so M's sub-DAG was skipped;
+// and every missing node is owed to such a skip (it is not reachable from the root once the
+// falsely-present manifests are cut off).
+func f12Explains(res *Result, missing []int) bool {
+	c, g := res.Case, res.G
+	stored := map[int]int{}
+	for i, s := range res.Toks {
+		t := parseTok(s)
+		if (t.op == "PE" && t.b == "k") || (t.op == "ME" && (t.a == "m" || t.a == "c")) {
+			if _, ok := stored[t.n]; !ok {
+				stored[t.n] = i
+			}
+		}
+	}
+	fs := map[int]bool{}
+	for i, s := range res.Toks {
+		t := parseTok(s)
+		if t.op != "XE" || t.a != "1" || t.n < 0 || !g.Nodes[t.n].IsManifest() || inSet(c.D0, t.n) {
+			continue
+		}
+		if at, ok := stored[t.n]; ok && at < i {
+			continue
+		}
+		for _, w := range g.Nodes {
+			if w.ID == t.n || w.Desc.Digest != g.Nodes[t.n].Desc.Digest || w.Desc.MediaType == g.Nodes[t.n].Desc.MediaType {
+				continue
+			}
+			at, ok := stored[w.ID]
+			if digestKeyedFor(c, w.ID) && (inSet(c.D0, w.ID) || (ok && at < i)) {
+				fs[t.n] = true
+			}
+		}
+	}
+	if len(fs) == 0 {
+		return false
+	}
+	owed := map[int]bool{}
+	var visit func(i int)
+	visit = func(i int) {
+		if owed[i] || g.Nodes[i].Foreign() || fs[i] {
+			return
+		}
+		owed[i] = true
+		for _, s := range g.Nodes[i].Succ {
+			visit(s)
+		}
+	}
+	visit(res.Root2)
+	for _, m := range missing {
+		if owed[m] {
+			return false
+		}
+	}
+	return true
 }
 
 type tok struct {
@@ -206,6 +264,9 @@ func OracleC04(run *common.Run, id string, res *Result) int {
 	injected := false
 	for i, s := range res.Toks {
 		t := parseTok(s)
+		if t.op != "RT" && t.n < 0 {
+			fail("unknown-descriptor", fmt.Sprintf("event %s on a descriptor that is not a node of the source graph (altered media type / size / digest?)", s))
+		}
 		switch t.op {
 		case "SB", "PB":
 			add(t.op, t.n, i)
@@ -235,9 +296,32 @@ func OracleC04(run *common.Run, id string, res *Result) int {
 		}
 	}
 	at := func(k string, n int) pos { return cnt[k+"."+strconv.Itoa(n)] }
+	proReads := map[int]int{}
+	for _, n := range res.Pro {
+		proReads[n]++
+	}
 	for n := 0; n < N; n++ {
-		if len(at("SB", n)) > 1 {
-			fail("double-fetch", fmt.Sprintf("node %d (%s) fetched from the source %d times", n, g.Nodes[n].Kind, len(at("SB", n))))
+		if tot := len(at("SB", n)) + proReads[n]; tot > 1 {
+			sig := "double-fetch"
+			// known finding prologue-read-twice: exactly one read in Copy's prologue and one in copyGraph, by one of
+			// the two prologue mechanisms that do not feed the proxy cache: (a) WithTargetPlatform on an
+			// image-manifest root (SelectManifest reads the manifest and its config with caching stopped),
+			// (b) resolveRoot through a ReferenceFetcher for a root that is not a manifest (the opened reader is
+			// closed unread, the cache push fails; copy.go carries a TODO)
+			if len(at("SB", n)) == 1 && proReads[n] == 1 {
+				root0 := c.Root
+				if c.MapRoot >= 0 {
+					root0 = c.MapRoot
+				}
+				rn := g.Nodes[root0]
+				platOnImage := c.Platform != "" && (rn.Kind == dag.KImage || rn.Kind == dag.KDocker) &&
+					(n == root0 || (len(rn.Succ) > 0 && (n == rn.Succ[0] || (rn.Subject >= 0 && len(rn.Succ) > 1 && n == rn.Succ[1]))))
+				refBlobRoot := c.RefFetch && (c.Mode == "t" || c.Mode == "r") && n == c.Root && !g.Nodes[n].IsManifest() && len(g.Nodes[n].Bytes) > 0
+				if platOnImage || refBlobRoot {
+					sig = "prologue-read-twice"
+				}
+			}
+			fail(sig, fmt.Sprintf("node %d (%s) read from the source %d times in one call (%d in the prologue, %d while copying)", n, g.Nodes[n].Kind, tot, proReads[n], len(at("SB", n))))
 		}
 		if len(at("PB", n)) > 1 {
 			fail("double-push", fmt.Sprintf("node %d (%s) pushed %d times", n, g.Nodes[n].Kind, len(at("PB", n))))
@@ -301,7 +385,7 @@ func OracleC04(run *common.Run, id string, res *Result) int {
 
 // Budget of one harness run.
 type Budget struct {
-	Main, Contention, Twin, CbFail, Mount, Remote, RootPresent, Extended int
+	Main, Contention, Twin, CbFail, Mount, Remote, RootPresent, Extended, TwinReach, PlatImage int
 	Sched, SchedReps                      int // graphs run under testing/synctest with the PRNG-controlled scheduler, extra schedules per graph
 	Small                                 bool // small-scope enumeration (graphs <= 3 nodes, sampled 4-node graphs) x roots x closed subsets
 	Reps                           int // extra schedules (latency seeds) per generated case
@@ -319,12 +403,21 @@ func Drive(run *common.Run, prop string, b Budget) {
 	// by one; hash the seed instead.
 	h := sha256.Sum256([]byte(fmt.Sprintf("copyh/%s/%d", prop, run.Seed)))
 	rootRand := common.NewRand(binary.LittleEndian.Uint64(h[:8]))
+	selfTested := map[uint64]bool{}
 	one := func(c *Case) {
 		id := run.NewID()
 		if js, err := json.Marshal(c); err == nil {
 			os.WriteFile(currentCasePath(run.Dir), js, 0o644)
 		}
 		res := Execute(c)
+		if res.SetupErr == nil && res.G != nil && !selfTested[c.GenSeed^uint64(len(c.Graph))] {
+			// the generator's edge list must be what content.Successors decodes (ground truth sanity)
+			selfTested[c.GenSeed^uint64(len(c.Graph))] = true
+			if err := res.G.SelfTest(); err != nil {
+				// content.Successors disagrees with the generator's edge list (the link kinds of the property)
+				run.OracleFail(id, "successors-differ", fmt.Sprintf("content.Successors vs the generator's links (stream %s): %v", c.Stream, err), replayDoc{Case: c})
+			}
+		}
 		if res.SetupErr != nil {
 			panic(fmt.Errorf("harness setup failed (not a property failure): %w", res.SetupErr))
 		}
@@ -350,6 +443,22 @@ func Drive(run *common.Run, prop string, b Budget) {
 		}
 		if c.Sched {
 			run.Count("controlled-schedule(synctest)")
+		}
+		if c.Stream == "twinreach" && res.Err == nil && (c.Dst == "oci" || c.Dst == "ocire" || (c.Dst == "file" && len(c.Titled) > 0)) {
+			miss := false
+			for i := range g.Reach(res.Root2) {
+				if !res.Present[i] {
+					miss = true
+				}
+			}
+			if miss {
+				run.Count("twinreach defect order")
+			} else {
+				run.Count("twinreach harmless order")
+			}
+		}
+		if c.Stream == "platimage" && res.Err == nil {
+			run.Count("platform on image manifest: selected")
 		}
 		switch c.cbBits() {
 		case "11111":
@@ -384,11 +493,28 @@ func Drive(run *common.Run, prop string, b Budget) {
 		if res.Err != nil {
 			run.Count("returned-error")
 		}
+		if c.Stream == "contention" && res.Keff >= 4 {
+			run.Extra["contention_max_inflight_K>=4"] = maxInt(run.Extra["contention_max_inflight_K>=4"], max(res.SrcMax, res.DstMax))
+		}
+		run.Extra[fmt.Sprintf("max_inflight_seen_K=%d", res.Keff)] = maxInt(run.Extra[fmt.Sprintf("max_inflight_seen_K=%d", res.Keff)], max(res.SrcMax, res.DstMax))
 		run.Extra["max_src_inflight_seen"] = maxInt(run.Extra["max_src_inflight_seen"], res.SrcMax)
 		run.Extra["max_dst_inflight_seen"] = maxInt(run.Extra["max_dst_inflight_seen"], res.DstMax)
 		if res.Hang {
-			oracle(run, id, res)
-			return
+			// a wall-clock watchdog on a shared machine: report only what a fresh run confirms
+			res2 := Execute(c)
+			if res2.SetupErr == nil && !res2.Hang {
+				run.Count("hang not reproduced (load)")
+				res = res2
+			} else {
+				oracle(run, id, res)
+				return
+			}
+		}
+		if c.PreTag >= 0 {
+			run.Count("destination reference pre-existing")
+		}
+		if c.MountAlways {
+			run.Count("blob root mounted into ReferencePusher/Tagger+Mounter")
 		}
 		if c.Mode == "x" || c.Mode == "X" {
 			run.Count("extended-copy")
@@ -399,6 +525,15 @@ func Drive(run *common.Run, prop string, b Budget) {
 				}
 			}
 			run.Count(fmt.Sprintf("extended-copy roots=%d", min(nroots, 4)))
+		}
+		if c.Dst == "file" && len(c.Titled) > 0 {
+			// a file-store destination is digest-keyed for titled blobs only and not symmetrically (a titled
+			// blob answers for every descriptor with its digest, not the other way round): outside the
+			// model's symmetric key -- judged by the oracle only
+			run.Count("file-dst-titled-twin (oracle only)")
+			run.Case(id, "0 0 u 0 - - - - rp="+c.Stream, "UNJUDGED")
+			oracle(run, id, res)
+			return
 		}
 		run.Case(id, ModelInput(res), implLine(res))
 		run.TracesAgainstImpl++
@@ -467,7 +602,9 @@ func Drive(run *common.Run, prop string, b Budget) {
 	stream("extended", b.Extended)
 	stream("mount", b.Mount)
 	stream("remote", b.Remote)
+	stream("platimage", b.PlatImage)
 	stream("twin", b.Twin)
+	stream("twinreach", b.TwinReach)
 	if T != nil {
 		// controlled schedules: several PRNG-chosen release orders per graph
 		for i := 0; i < b.Sched; i++ {
@@ -489,6 +626,35 @@ func Drive(run *common.Run, prop string, b Budget) {
 		}
 	}
 	os.Remove(currentCasePath(run.Dir))
+
+	// coverage floors: a run whose streams did not reach the situations they exist for must not pass silently
+	// (reported as a harness failure = layer R, not as a property violation)
+	floor := func(what string, got, want int) {
+		if got < want {
+			panic(fmt.Sprintf("coverage floor not reached: %s: %d < %d", what, got, want))
+		}
+	}
+	if b.Contention >= 100 {
+		got, _ := run.Extra["contention_max_inflight_K>=4"].(int)
+		floor("contention stream: peak operations in flight for some K >= 4 (otherwise the bound is only exercised for K <= 3)", got, 4)
+	}
+	if b.RootPresent >= 60 {
+		for _, m := range []string{"Tagger", "ReferencePusher"} {
+			for _, h := range []string{"nil", "set"} {
+				floor("matrix root-present/"+m+"/OnCopySkipped-"+h, run.Dist["matrix root-present/"+m+"/OnCopySkipped-"+h], 5)
+			}
+		}
+	}
+	if b.TwinReach >= 60 {
+		floor("twinreach stream: runs in which the manifest was probed after its twin blob was stored", run.Dist["twinreach defect order"], 1)
+		floor("twinreach stream: runs in which the manifest was probed first", run.Dist["twinreach harmless order"], 1)
+	}
+	if b.PlatImage >= 30 {
+		floor("platimage stream: successful platform selection on an image manifest", run.Dist["platform on image manifest: selected"], 1)
+	}
+	if T != nil && b.Sched > 0 {
+		floor("controlled schedules", run.Dist["controlled-schedule(synctest)"], b.Sched)
+	}
 }
 
 func implLine(res *Result) string {
